@@ -6,6 +6,7 @@ import (
 	"path/filepath"
 	"sort"
 	"strings"
+	"time"
 
 	"github.com/influxdata/influxdb/v2/models"
 	"github.com/influxdata/influxdb/v2/tsdb"
@@ -184,6 +185,30 @@ func (x *gixIndex) DropSeriesOpt(ss []gixSeries, cascade, keepSeriesFile bool) (
 func (x *gixIndex) CompactWait() {
 	x.Idx.Compact()
 	x.Idx.Wait()
+}
+
+// Quiesce waits until no partition has a compaction running or pending. Observations are made
+// at such step boundaries only: tsi1 hands out series sets that alias the mmap of index files
+// (see /verif/findings/C14-series-id-set-iterators-outlive-their-index-file-mapping.md), so
+// iterating while a background compaction retires files can fault; that hazard is reported
+// separately and must not decide these checks by scheduling luck.
+func (x *gixIndex) Quiesce() bool {
+	for i := 0; i < 4000; i++ {
+		busy := false
+		for p := 0; p < int(x.Idx.PartitionN); p++ {
+			pt := x.Idx.PartitionAt(p)
+			if pt.CurrentCompactionN() != 0 || pt.NeedsCompaction(false) {
+				busy = true
+			}
+		}
+		if !busy {
+			return true
+		}
+		x.Idx.Compact()
+		x.Idx.Wait()
+		time.Sleep(500 * time.Microsecond)
+	}
+	return false
 }
 
 // Layout counts the index files by kind/level over all partitions.
